@@ -24,7 +24,7 @@ func e1Consts(c *core.Check) map[string]string {
 func runC07(c *core.Check) {
 	c.Rule = "every MC_E1 AST (native text, JSON template string, JSON object-key template): Variables() roots R; evaluation in the full scope, in the scope pruned to R, and with all unreported variables changed / nulled must give identical value and diagnostics; iterator names must not be reported; plus every MC_C18 body (static and dynamic blocks, nested iterators, a global named like an iterator) under 9 hcldec specs: decoding in the scope pruned to VariablesHCLDec roots is identical, ExpandVariablesHCLDec is a subset, iterator names are not reported, hcldec.Variables agrees on static bodies. Non-trivial = distinct source with at least one reported root"
 	c.Assumes = []string{"diagnostics are compared by severity, summary, detail and subject with the scope-dependent 'Did you mean' hint removed"}
-	streamTLC(c, core.TLCRun{Module: "MC_E1", Consts: e1Consts(c), Timeout: minutes(25), KeepVars: []string{"e", "fv", "last"}},
+	streamTLC(c, core.TLCRun{Module: "MC_E1", Parts: 4, Consts: e1Consts(c), Timeout: minutes(25), KeepVars: []string{"e", "fv", "last"}},
 		func(st core.State) { c07.Handle(c, st) })
 	// bodies under hcldec specs and bodies with dynamic blocks: hcldec.Variables, dynblock.VariablesHCLDec,
 	// dynblock.ExpandVariablesHCLDec (MC_C18 bodies; only the variable relation of the C18 replayer)
